@@ -12,14 +12,23 @@ CLAIMED = {
     'C01': ('refinement theorem over the Lsm model (under the invariant, the implementation\'s lookup order returns what a sorted map of all entries dictates; every contract-satisfying '
             'flush/compaction/recovery step preserves the invariant and every protected view), with the hypotheses (stepOk, Inv) evaluated by lean tracecheck on every step of real histories '
             'and every get recomputed from the model state and from the plain write history', 'Lean 4 proof + trace validation of real histories against the model', '7 C01'),
+    'C05': ('recover_subset / recover_sublist / crash_versions_step over the protocol model (per-log prefix, nothing invented); every image variant reopened, followed by synced writes and a second reopen',
+            'Lean 4 proof + trace validation of real I/O journals + crash-image replay', '7 C05'),
     'C06': ('snapshot_view_stable / write_view / background_preserves_view theorems over the Lsm model; trace validation of histories with many live snapshots across compactions of every level',
             'Lean 4 proof + trace validation of real histories against the model', '7 C06'),
     'C07': ('cursor-over-sorted-map specification of the user iterator; every iterator step of real histories (direction changes, all seek kinds, snapshots, three comparators) must land where the '
             'map cursor over the model state dictates; implementation-side iterator models and their refinement theorems', 'Lean 4 proof + trace validation of real histories against the model', '7 C07'),
+    'C12': ('kill/close durability theorems applied to the conforming prefix before the fault; fault-injection runs of the real code (k-th call fails; ENOSPC/EIO/EMFILE/ENOENT; one-shot/persistent; '
+            'partial writes) through the same crash oracle: no crash or hang, reads correct, every acknowledged write present after reopen', 'Lean 4 proof + fault-injection trace validation', '7 C12'),
     'C13': ('keep-rule/live-set model: at every quiescent point the directory must contain exactly the live tables, the current log(s), one MANIFEST; every live file number below next_file_number',
             'Lean 4 proof + trace validation of real histories against the model', '7 C13'),
     'C14': ('Inv (sorted disjoint levels, file bounds, recency, distinct numbers) proved preserved by every contract-satisfying step; evaluated on every reconstructed version of real histories; '
             'layout after reopen must equal the model\'s', 'Lean 4 proof + trace validation of real histories against the model', '7 C14'),
+    'C02': ('synced_durable / crash_image_readable over the storage-protocol model: for every trace accepted by the monitor (Conforms), every crash point and every crash image the model allows, '
+            'recovery succeeds and every sync-acknowledged batch is replayed or its log retired; the monitor is evaluated on the real system-call journal (MANIFEST bytes decoded by the Lean decoders) and '
+            'sampled crash images are materialised and reopened with the real code', 'Lean 4 proof + trace validation of real I/O journals + crash-image replay', '7 C02'),
+    'C03': ('kill_durable / kill_recovers / kill_order over the same protocol model; kill images at journal prefixes reopened with the real code and checked against the acknowledged set',
+            'Lean 4 proof + trace validation of real I/O journals + crash-image replay', '7 C03'),
     'C04': ('batch byte format theorems (iterate∘encode, append, every proper prefix rejected) + exact differential correspondence of ldb_batch_* with the Lean model',
             'Lean 4 proof + model/implementation correspondence', '7 C04'),
     'C15': ('theorems over the Lean model of log_writer.c/log_reader.c/crc32c.c for all record lists, offsets and cut points (round trip, truncation, compositional reuse, CRC = bitwise CRC-32C, '
